@@ -10,6 +10,7 @@ import (
 	"os"
 	"runtime/debug"
 	"sort"
+	"strings"
 	"sync"
 	"sync/atomic"
 	"time"
@@ -41,6 +42,9 @@ type Options struct {
 	SinceHook    func(fr *frame) value
 	Params       map[string]int
 	ActiveFindings map[string]bool
+	CrossSolvers []string // second solvers for the unsat cross-check (none = off)
+	CrossEvery   int      // every n-th unsat verdict is cross-checked
+	CrossMax     int      // at most this many per harness
 }
 
 // ConstRewrite: inside functions whose full name contains Func, the integer
@@ -68,6 +72,7 @@ type Engine struct {
 	cond     *sync.Cond
 	Report   *Report
 	stop     atomic.Bool
+	cross    *crossChecker
 }
 
 type Worker struct {
@@ -119,6 +124,8 @@ type Report struct {
 	Samples     []string
 	MaxTrace    int
 	Truncated   bool
+	Cross       []*CrossStat
+	CrossSeen   int64 // unsat verdicts of the primary solver
 }
 
 func NewEngine(P *Program, pkg *ssa.Package, harness *ssa.Function, opts Options) *Engine {
@@ -140,6 +147,16 @@ func (e *Engine) Run() *Report {
 	if n <= 0 {
 		n = 1
 	}
+	if len(e.Opts.CrossSolvers) > 0 && e.Opts.Prefix == nil {
+		every, max := e.Opts.CrossEvery, e.Opts.CrossMax
+		if every <= 0 {
+			every = 50
+		}
+		if max <= 0 {
+			max = 60
+		}
+		e.cross = newCrossChecker(e.Opts.CrossSolvers, every, max, 20000)
+	}
 	var wg sync.WaitGroup
 	for k := 0; k < n; k++ {
 		w := &Worker{id: k, eng: e}
@@ -150,6 +167,15 @@ func (e *Engine) Run() *Report {
 		}()
 	}
 	wg.Wait()
+	if e.cross != nil {
+		stats, bad := e.cross.finish()
+		e.Report.Cross = stats
+		e.Report.CrossSeen = e.cross.seen.Load()
+		for _, b := range bad {
+			fmt.Fprintln(os.Stderr, "SOLVER DISAGREEMENT:", b)
+			e.Report.Inconclusive = append(e.Report.Inconclusive, "second solver disagrees with an unsat verdict: "+strings.SplitN(b, "\n", 2)[0])
+		}
+	}
 	e.Report.Wall = time.Since(t0)
 	r := e.Report
 	r.Exhaustive = !r.Truncated && len(r.Inconclusive) == 0
@@ -188,6 +214,13 @@ func (e *Engine) done(forks [][]int64) {
 	e.mu.Unlock()
 }
 
+func (w *Worker) hookCross() {
+	if c := w.eng.cross; c != nil && w.solver != nil {
+		w.solver.XSample = c.sample
+		w.solver.XSink = c.sink
+	}
+}
+
 func (w *Worker) loop() {
 	e := w.eng
 	w.ctx = sym.NewCtx()
@@ -198,6 +231,7 @@ func (w *Worker) loop() {
 		return
 	}
 	w.solver = s
+	w.hookCross()
 	if lf := os.Getenv("VCHECK_SMTLOG"); lf != "" && w.id == 0 {
 		f, _ := os.Create(lf)
 		s.Log = f
@@ -229,6 +263,7 @@ func (w *Worker) loop() {
 			e.mu.Unlock()
 			w.ctx = sym.NewCtx()
 			w.solver, _ = sym.NewSolver(e.Opts.Solver, w.ctx, e.Opts.TimeoutMs)
+			w.hookCross()
 		}
 		st := w.runPath(prefix)
 		w.collect(st)
